@@ -5,11 +5,6 @@ requests — and every binding reachable from (o, a) is reachable from a holder.
 namespace EsbuildModel.ExportMatch
 open EsbuildModel.Spec EsbuildModel.Spec.EsModules
 
-/-- a local binding that is exported under several names has ONE export location
-(false for `export {x as a, x as b}`: the linker compares locations when it decides whether two star paths agree) -/
-def LocInj (t : Table) : Prop :=
-  ∀ f ∈ t, ∀ e1 ∈ f.exports, ∀ e2 ∈ f.exports, e1.ref = e2.ref → findImport f e1.ref = none → e1.loc = e2.loc
-
 /-- no named re-export leads back to itself, possibly through export stars and other re-exports
 (`export {a as b} from "./x"` … `export {b as a} from "./y"` cycles) -/
 def NoReexportCycle (T : EsModules.Table) : Prop :=
